@@ -18,9 +18,10 @@ Definition cond := (list nat * (nat * nat))%type.   (* post-selection condition:
 Definition postsel := list cond.
 (* circuit: matrix id, mode count, and the mode relabelling applied to that matrix: entry i of c_lab is the new
    index of original mode i (seq 0 size for a circuit used as built) *)
-Record circ := mkcirc { c_id : nat; c_size : nat; c_lab : list nat }.
+(* c_vals: the current values (in 1/1000) of the circuit's parameters: the matrix is a function of (c_id, c_vals) *)
+Record circ := mkcirc { c_id : nat; c_size : nat; c_lab : list nat; c_vals : list (nat * Z) }.
 
-Inductive exn := XAssert | XRuntime | XValue | XNotImpl | XType | XIndex | XUnavail | XHttp.
+Inductive exn := XAssert | XRuntime | XValue | XNotImpl | XType | XIndex | XUnavail | XHttp | XKey | XConn | XTimeout.
 (* [Err e w]: exception class and the raising site:
    1 input length (Experiment.check_input)      2 herald value not 0/1      3 herald mode occupied
    4 herald mode outside the circuit            10 min_detected_photons unset
@@ -29,7 +30,8 @@ Inductive exn := XAssert | XRuntime | XValue | XNotImpl | XType | XIndex | XUnav
    30 iteration: unknown key  31 wrong type  32 unknown circuit parameter  33 input size
    40 missing input state     41 no compatible primitive
    50 too many positional arguments (IndexError)  51 passed twice  52 unused keyword
-   53 None compared with a number (TypeError)     60 server refused the request     70 no mode of interest *)
+   53 None compared with a number (TypeError)     60 server refused the request     70 no mode of interest
+   61 the request was registered by the server but its answer was lost     80 no such circuit parameter *)
 Inductive res (A : Type) := Ok (a : A) | Err (e : exn) (w : nat).
 Arguments Ok {A} a.
 Arguments Err {A} e w.
@@ -94,7 +96,13 @@ Inductive pop :=
 | ONoise (nz : option noise)        (* .noise = nz *)
 | OPostsel (ps : postsel)           (* set_postselection *)
 | OClearPs                          (* clear_postselection *)
-| OHerald (mode expected : nat).    (* add_herald *)
+| OHerald (mode expected : nat)     (* add_herald *)
+| OParam (name : nat) (v : Z).      (* get_circuit_parameters()[name].set_value(v): no structural change *)
+
+Fixpoint vput (k : nat) (v : Z) (d : list (nat * Z)) : list (nat * Z) :=
+  match d with [] => [(k, v)] | (k', v') :: r => if k' =? k then (k, v) :: r else (k', v') :: vput k v r end.
+Definition set_circ (p : proc) (c : circ) :=
+  mkproc c (p_pnames p) (p_ports p) (p_her p) (p_in p) (p_ps p) (p_noise p) (p_filter p).
 
 Definition apply_op (p : proc) (o : pop) : res proc :=
   match o with
@@ -109,6 +117,10 @@ Definition apply_op (p : proc) (o : pop) : res proc :=
       else if is_her (p_her p) mode || existsb (Nat.eqb mode) (p_ports p) then Err XUnavail 3
       else if p_size p <=? mode then Err XIndex 4         (* never generated: the real call corrupts the port table *)
       else Ok (set_her p (p_her p ++ [(mode, v)]))
+  | OParam n v =>
+      if existsb (Nat.eqb n) (p_pnames p)
+      then Ok (set_circ p (mkcirc (c_id (p_circ p)) (c_size (p_circ p)) (c_lab (p_circ p)) (vput n v (c_vals (p_circ p)))))
+      else Err XKey 80
   end.
 
 (* ------------------------------------------------------------------ local -> remote conversion *)
@@ -124,7 +136,7 @@ Definition noise_sem (o : option noise) : noise := match o with Some n => n | No
 (* the processor obtained by rp.noise = lp.noise; rp.add(0, lp); rp.min_detected_photons_filter(lp's) *)
 Definition relabelled (lp : proc) : proc :=
   let sg := sigma lp in
-  mkproc (mkcirc (c_id (p_circ lp)) (p_size lp) (map sg (c_lab (p_circ lp))))
+  mkproc (mkcirc (c_id (p_circ lp)) (p_size lp) (map sg (c_lab (p_circ lp))) (c_vals (p_circ lp)))
          (* with heralds, _compose_experiment copies the experiment and Experiment.copy freezes every variable
             parameter that holds a value (the driver's parameters always do): they stop being circuit parameters *)
          (match p_her lp with [] => p_pnames lp | _ => [] end) (map sg (p_ports lp))
@@ -393,8 +405,10 @@ Inductive ev :=
 | EAddIter (it : iteration)
 | EClear
 | EJob (m : meth)                                              (* sampler.probs / .sample_count / .samples *)
-| EExec (k : nat) (args : list (option Z)) (kw : dict) (accept : bool).   (* jobs[k].execute_async with these positional and keyword arguments *)
-Inductive obs := ODone | ORaised (e : exn) (w : nat) | OSent | ORefused | OSkip.   (* ORefused: sent, HTTP error *)
+| EExec (k : nat) (args : list (option Z)) (kw : dict) (answer : nat).   (* jobs[k].execute_async with these positional and keyword arguments *)
+(* the server's answer to a job-creation request: 0 = HTTP 400 (no job created); 1 = accepted; 2, 4 = the request is
+   registered (the job exists) and then the connection drops; 3 = registered, then the read times out *)
+Inductive obs := ODone | ORaised (e : exn) (w : nat) | OSent | ORefused | OLost (timeout : bool) | OSkip.
 
 (* AAlgorithm.__init__ on a remote processor *)
 Definition init_sess (pf : platform) (p : proc) (shots : option Z) : res sess :=
@@ -427,7 +441,7 @@ Definition step (s : sess) (e : ev) : sess * obs :=
       | Ok j => (mksess (s_pf s) (s_proc s) (s_shots s) (s_gens s) (s_jobs s ++ [j]) (s_net s) (s_created s), ODone)
       | Err x w => (s, ORaised x w)
       end
-  | EExec k args kw accept =>
+  | EExec k args kw answer =>
       match nth_error (s_jobs s) k with
       | None => (s, OSkip)
       | Some j =>
@@ -438,8 +452,8 @@ Definition step (s : sess) (e : ev) : sess * obs :=
             | Err x w => (mksess (s_pf s) (s_proc s) (s_shots s) (s_gens s) jobs' (s_net s) (s_created s), ORaised x w)
             | Ok r =>
                 (mksess (s_pf s) (s_proc s) (s_shots s) (s_gens s) jobs' (s_net s ++ [(r, k)])
-                        (if accept then S (s_created s) else s_created s),
-                 if accept then OSent else ORefused)
+                        (match answer with 0 => s_created s | _ => S (s_created s) end),
+                 match answer with 0 => ORefused | 1 => OSent | 3 => OLost true | _ => OLost false end)
             end
       end
   end.
